@@ -343,3 +343,13 @@ Theorem C03_initial_data_is_per_connection_refuted :
             map fst (t_pull t) = [1%nat; 2%nat].
 Proof. eexists. split; [vm_compute; reflexivity|]. split; vm_compute; reflexivity. Qed.
 Print Assumptions C03_initial_data_is_per_connection_refuted.
+
+(* known finding F14 on the model of SimRunner.get_output_for (compared literally with the source): the cache is scanned in
+   INSERTION order, newest first, for an entry whose time is at or before the query - when output times go back (an output
+   stamped 3, then one stamped 1) a query at 5 is answered with the entry of time 1 although the entry of time 3 is later and
+   also at or before 5 *)
+Theorem C03_pulled_value_is_newest_by_time_refuted :
+  exists outs t, (forall e, In e outs -> fst e <= t) /\ In (3, [(2%nat, 30)]) outs /\ get_output_for outs t = [(2%nat, 10)].
+Proof. exists [(3, [(2%nat, 30)]); (1, [(2%nat, 10)])], 5. split; [|split; [left; reflexivity|vm_compute; reflexivity]].
+       intros e [<-|[<-|[]]]; simpl; discriminate. Qed.
+Print Assumptions C03_pulled_value_is_newest_by_time_refuted.
